@@ -537,10 +537,12 @@ var _ = fmt.Sprintf
 // ruleAsDistinct (G-as-distinct): no interface is listed twice for one result.
 func ruleAsDistinct(rule string) RuleFn {
 	return func(c *an.Ctx) {
-		c.Rule(rule, "G-as-distinct: the interfaces given with dig.As are pairwise distinct by the time they become the keys of a result node: on the way from the option to the node (provideOptions.Validate, newResult, newResultSingle) each interface type is checked against those already accepted - a comma-ok lookup in a local map keyed by the interface's reflect.Type that is also updated under that key, or an equality test against the elements collected so far - and a repeated one is rejected or skipped. Single values would be caught later by the duplicate-key check, but group keys bypass that check by design: a repeated interface makes resultGrouped.Extract submit the same member twice to one group")
+		c.Rule(rule, "G-as-distinct: the interfaces given with dig.As are pairwise distinct by the time they become the keys of a result node: in newResult, where the group of a result is known whether it came from the dig.Group option or from a group tag, each interface type is checked against those already accepted - a comma-ok lookup in a local map keyed by the interface's reflect.Type that is also updated under that key, or an equality test against the elements collected so far - and a repeated one is rejected or skipped. Single values would be caught later by the duplicate-key check, but group keys bypass that check by design: a repeated interface makes resultGrouped.Extract submit the same member twice to one group")
 		found := ""
 		n := 0
-		for _, nm := range []string{"(*dig.provideOptions).Validate", "dig.newResult", "dig.newResultSingle"} {
+		// newResult is where the option route (dig.Group) and the tag route (a group-tagged result-object field) meet: a
+		// check placed earlier on one route only (provideOptions.Validate sees the option, never the tag) leaves the other open
+		for _, nm := range []string{"dig.newResult"} {
 			fn := c.P.Func(nm)
 			if fn == nil {
 				continue
@@ -598,7 +600,7 @@ func ruleAsDistinct(rule string) RuleFn {
 				}
 			}
 		}
-		c.Floor(rule, "functions between dig.As and the result node", n, 3)
+		c.Floor(rule, "functions between dig.As and the result node", n, 1)
 		c.Check(found != "", rule, "dig.As: a repeated interface is detected before it becomes a key of a result node", found, "nothing between the As option and the result node compares an interface with those already listed: Provide(f, Group(\"g\"), As(new(I), new(I))) registers group key (g, I) twice on one node and every consumer of []I receives the member twice (group keys bypass the duplicate-key check)", nil, nil)
 	}
 }
@@ -782,6 +784,19 @@ func ruleDotLeaves(rule string) RuleFn {
 				min = 2
 			}
 			c.Floor(rule, "dot.Node constructions in "+sp.fn, nodes, min)
+		}
+		// a value group has no optional flag (dig rejects `optional` on a group): its dot.Param says Optional = false
+		if fn := c.Fn(rule, "(dig.paramGroupedSlice).DotParam"); fn != nil {
+			okG := true
+			an.Instrs(fn, func(in ssa.Instruction) {
+				al, isA := in.(*ssa.Alloc)
+				if isA && isConstruction(al) && an.IsNamed(al.Type(), an.ModPath+"/internal/dot", "Param") {
+					if v := fieldStore(al, "Optional"); v != nil && an.Norm(an.Resolve(v)) != "false" {
+						okG = false
+					}
+				}
+			})
+			c.Check(okG, rule, "(dig.paramGroupedSlice).DotParam: a group parameter is never reported as optional", "Optional left false", "the dot.Param of a value group gets an Optional flag from somewhere (its Soft flag?): ProvideInfo/DecorateInfo/InvokeInfo copy it, and a `group:\"x,soft\"` field is reported as []T[optional, group = \"x\"] although no optional tag was declared (dig even rejects one on a group)", nil, nil)
 		}
 		if fn := c.Fn(rule, "(dig.paramSingle).DotParam"); fn != nil {
 			ok := false
